@@ -13,7 +13,7 @@ export CARGO_NET_OFFLINE=true CARGO_TARGET_DIR=$T
 bins=("$@")
 [ ${#bins[@]} -eq 0 ] && bins=($(python3 -c "import sys; sys.path.insert(0,'lib'); import props; print(' '.join(sorted({r['bin'] for c in props.PROPS.values() for r in c.get('runs',[])})))"))
 mkdir -p build/cov
-( cd harness && RUSTFLAGS="--cfg sophia_verif -Awarnings -C instrument-coverage" cargo +nightly build --offline $(printf -- '--bin %s ' "${bins[@]}") 2>&1 | tail -3 )
+( cd harness && LLVM_PROFILE_FILE="$T/build-%p-%m.profraw" RUSTFLAGS="--cfg sophia_verif -Awarnings -C instrument-coverage" cargo +nightly build --offline $(printf -- '--bin %s ' "${bins[@]}") 2>&1 | tail -3 )
 for b in "${bins[@]}"; do
   rm -rf "$T/prof-$b" "$T/out-$b"; mkdir -p "$T/prof-$b" "$T/out-$b"
   args=$(python3 - "$b" <<'E'
